@@ -57,9 +57,9 @@ type PrintConfig struct {
 }
 
 // Print reads and prints back out the log file
-func Print(logStream io.Reader, pc PrintConfig) error {
+func Print(logStream io.Reader, pc PrintConfig) (err error) {
 	r := NewPrintReporter(pc.ReporterConfig)
-	defer r.Flush()
+	defer utils.FlushOnExit(r, &err)
 	f := filter.GetIntervalNodeFilter(pc.FilterConfig)
 	return utils.WalkNodesInStream(logStream, pc.DateFormat, pc.ParserConfig, f, r)
 }
